@@ -175,10 +175,7 @@ def evaluate(case):
             if inp.get("poison") is not None:
                 # a text the parser must reject, on the same parser object, right before
                 bad = ["a /* never closed", "a $ b", text[:len(text) // 2] + " /*", "", "( ( ("][inp["poison"] % 5]
-                try:
-                    parser.parse(bad, do_cleanup=False)
-                except Exception:   # noqa
-                    pass
+                parse_guarded(L, parser, bad, 8, budget=20000, do_cleanup=False)      # outcome irrelevant, but must not hang
                 classes.add("rejected_text_parsed_before")
             if override is not None:
                 kind, res, stt = parse_guarded(L, parser, src, len(tokens), budget=40000, do_cleanup=False,
